@@ -149,20 +149,21 @@ Print Assumptions C05_first_event.
 
 (** 4. Until then: the old stream.  On a tick on which no start for track id is due, the track - if it is still
     scheduled afterwards - holds the stream it had, advanced by the pulls of this tick only (callbacks that perform
-    no timeline operation; with operations, an update made by a callback is one more request, covered above). *)
-Theorem C05_old_stream_tick : forall cfg tl id, wf tl -> no_cb_ops cfg ->
+    no timeline operation and do not raise StopIteration - which ends the track's stream, see C17; with operations, an update
+    made by a callback is one more request, covered above). *)
+Theorem C05_old_stream_tick : forall cfg tl id, wf tl -> no_cb_ops cfg -> no_cb_stop cfg ->
   last_start (now tl) id (actions tl) None = None ->
   match find_track id (tracks tl), find_track id (tracks (fst (fst (tl_tick cfg tl)))) with
   | Some tr, Some tr' => exists k, t_stream tr' = pull_n (t_stream tr) k
   | _, None => True
   | None, Some _ => False
   end.
-Proof. intros cfg tl id W NC L. exact (tl_tick_kp cfg tl id W NC L). Qed.
+Proof. intros cfg tl id W NC NS L. exact (tl_tick_kp cfg tl id W NC NS L). Qed.
 Print Assumptions C05_old_stream_tick.
 
 (* over n ticks, from any well-formed timeline in which every pending start for the track is for time >= X,
    as long as the last of the n ticks begins before X *)
-Theorem C05_old_stream_until : forall cfg id X, no_cb_ops cfg -> 0 < tau cfg -> forall n tl, wf tl ->
+Theorem C05_old_stream_until : forall cfg id X, no_cb_ops cfg -> no_cb_stop cfg -> 0 < tau cfg -> forall n tl, wf tl ->
   (forall t s, In (AStart t id s) (actions tl) -> X <= t) ->
   (n = 0%nat \/ now tl + (Z.of_nat n - 1) * tau cfg < X) ->
   match find_track id (tracks tl), find_track id (tracks (run_state cfg tl (repeat OTick n))) with
@@ -170,7 +171,7 @@ Theorem C05_old_stream_until : forall cfg id X, no_cb_ops cfg -> 0 < tau cfg -> 
   | _, None => True
   | None, Some _ => False
   end.
-Proof. intros cfg id X NC Htau n tl W S Hn. exact (ticks_kp cfg id X NC Htau n tl W S Hn). Qed.
+Proof. intros cfg id X NC NS Htau n tl W S Hn. exact (ticks_kp cfg id X NC NS Htau n tl W S Hn). Qed.
 Print Assumptions C05_old_stream_until.
 
 (* every timeline reachable from the empty one is well-formed *)
@@ -204,11 +205,11 @@ Example C05_nonvacuous :
        [ []; [60]; []; []; []; [60]; []; []; []; []; []; []; [60]; [80]; []; []; []; [80] ]
   /\ actions (run_state ex_cfg tl0 (firstn 10 ex_ops))
      = [AStart 27 0 (mkStream [ex_note 70 12] 0 true); AStart 27 0 (mkStream [ex_note 80 12] 0 true)]
-  /\ wf (run_state ex_cfg tl0 ex_ops) /\ no_cb_ops ex_cfg.
+  /\ wf (run_state ex_cfg tl0 ex_ops) /\ no_cb_ops ex_cfg /\ no_cb_stop ex_cfg.
 Proof.
   split; [reflexivity|]. split; [reflexivity|]. split; [reflexivity|].
   split; [vm_compute; reflexivity|]. split; [vm_compute; reflexivity|].
-  split; [apply C05_reachable_wf; apply wf_tl0|]. intros [|cb]; reflexivity.
+  split; [apply C05_reachable_wf; apply wf_tl0|]. split; intros [|cb]; try reflexivity; discriminate.
 Qed.
 
 (* a request made from inside an action callback during tick k fires on tick k+1 at the earliest: the callback of
